@@ -561,12 +561,16 @@ Require Verif.Tie.Loops.Alpine.
 Require Verif.Tie.Loops.Cargo.
 Require Verif.Tie.Loops.CargoRange.
 Require Verif.Tie.Loops.Debian.
+Require Verif.Tie.Loops.DebianRange.
 Require Verif.Tie.Loops.Gem.
 Require Verif.Tie.Loops.Golang.
+Require Verif.Tie.Loops.GolangRange.
 Require Verif.Tie.Loops.Maven.
 Require Verif.Tie.Loops.Npm.
 Require Verif.Tie.Loops.Nuget.
+Require Verif.Tie.Loops.NugetRange.
 Require Verif.Tie.Loops.Pypi.
+Require Verif.Tie.Loops.PypiRange.
 Require Verif.Tie.Loops.Rpm.
 Require Verif.Tie.Loops.RpmRange.
 Require Verif.Tie.Loops.Semver.
@@ -704,6 +708,10 @@ Definition C04_tie_compareDebianVersionString_total_model := Verif.Tie.Loops.Deb
 Print Assumptions C04_tie_compareDebianVersionString_total_model.
 Definition C04_tie_debian_compare_closed := Verif.Tie.Loops.Debian.tie_debian_compare_closed.
 Print Assumptions C04_tie_debian_compare_closed.
+Definition C04_tie_debian_satisfiesConstraint_closed := Verif.Tie.Loops.DebianRange.tie_debian_satisfiesConstraint_closed.
+Print Assumptions C04_tie_debian_satisfiesConstraint_closed.
+Definition C04_tie_debian_contains_closed := Verif.Tie.Loops.DebianRange.tie_debian_contains_closed.
+Print Assumptions C04_tie_debian_contains_closed.
 Definition C04_tie_loops_gem_removeTrailingZeros_exact := Verif.Tie.Loops.Gem.tie_loops_gem_removeTrailingZeros_exact.
 Print Assumptions C04_tie_loops_gem_removeTrailingZeros_exact.
 Definition C04_tie_loops_gem_removeTrailingZeros := Verif.Tie.Loops.Gem.tie_loops_gem_removeTrailingZeros.
@@ -730,6 +738,10 @@ Definition C04_tie_comparePrerelease_total_model := Verif.Tie.Loops.Golang.compa
 Print Assumptions C04_tie_comparePrerelease_total_model.
 Definition C04_tie_golang_compare_closed := Verif.Tie.Loops.Golang.tie_golang_compare_closed.
 Print Assumptions C04_tie_golang_compare_closed.
+Definition C04_tie_golang_matches_closed := Verif.Tie.Loops.GolangRange.tie_golang_matches_closed.
+Print Assumptions C04_tie_golang_matches_closed.
+Definition C04_tie_golang_contains_closed := Verif.Tie.Loops.GolangRange.tie_golang_contains_closed.
+Print Assumptions C04_tie_golang_contains_closed.
 Definition C04_tie_loops_maven_trimTrailingNulls_gen := Verif.Tie.Loops.Maven.tie_loops_maven_trimTrailingNulls_gen.
 Print Assumptions C04_tie_loops_maven_trimTrailingNulls_gen.
 Definition C04_tie_loops_maven_trimTrailingNulls := Verif.Tie.Loops.Maven.tie_loops_maven_trimTrailingNulls.
@@ -744,12 +756,22 @@ Definition C04_tie_loops_nuget_comparePrerelease := Verif.Tie.Loops.Nuget.tie_lo
 Print Assumptions C04_tie_loops_nuget_comparePrerelease.
 Definition C04_tie_nuget_compare_closed := Verif.Tie.Loops.Nuget.tie_nuget_compare_closed.
 Print Assumptions C04_tie_nuget_compare_closed.
+Definition C04_tie_nuget_matches_closed := Verif.Tie.Loops.NugetRange.tie_nuget_matches_closed.
+Print Assumptions C04_tie_nuget_matches_closed.
+Definition C04_tie_nuget_contains_closed := Verif.Tie.Loops.NugetRange.tie_nuget_contains_closed.
+Print Assumptions C04_tie_nuget_contains_closed.
+Definition C04_tie_nuget_contains_closed_model_num := Verif.Tie.Loops.NugetRange.tie_nuget_contains_closed_model_num.
+Print Assumptions C04_tie_nuget_contains_closed_model_num.
 Definition C04_tie_loops_pypi_compareReleaseVersions := Verif.Tie.Loops.Pypi.tie_loops_pypi_compareReleaseVersions.
 Print Assumptions C04_tie_loops_pypi_compareReleaseVersions.
 Definition C04_tie_compareReleaseVersions_total_model := Verif.Tie.Loops.Pypi.compareReleaseVersions_total_model.
 Print Assumptions C04_tie_compareReleaseVersions_total_model.
 Definition C04_tie_pypi_compare_closed := Verif.Tie.Loops.Pypi.tie_pypi_compare_closed.
 Print Assumptions C04_tie_pypi_compare_closed.
+Definition C04_tie_pypi_matches_closed := Verif.Tie.Loops.PypiRange.tie_pypi_matches_closed.
+Print Assumptions C04_tie_pypi_matches_closed.
+Definition C04_tie_pypi_contains_closed := Verif.Tie.Loops.PypiRange.tie_pypi_contains_closed.
+Print Assumptions C04_tie_pypi_contains_closed.
 Definition C04_tie_loops_rpm_isSeparator := Verif.Tie.Loops.Rpm.tie_loops_rpm_isSeparator.
 Print Assumptions C04_tie_loops_rpm_isSeparator.
 Definition C04_tie_loops_rpm_isSeparator_rune := Verif.Tie.Loops.Rpm.tie_loops_rpm_isSeparator_rune.
